@@ -25,6 +25,8 @@ RULE = (
     "target); calendar fields vs datetime; monotonicity on k,k+1; ceil(floor(k))==k when d*10^12>=n. "
     "Non-trivial: (k*d) % n != 0, or index >= 2^40, or n >= 2^24; enumerated tuples are distinct by construction, "
     "Hypothesis tuples are counted by SHA-1."
+    ' Directed: 6-12 threads of one interpreter call digital_rf.get_unix_time concurrently on indices whose calenda'
+    'r fields all differ (150k calls each in the quick tier); every result must be exact.'
 )
 ASSUMPTIONS = [
     "private helpers digital_rf_get_timestamp_floor / digital_rf_get_sample_ceil are reached through ctypes on a shared object built from /repo/c/lib/rf_write_hdf5.c",
@@ -191,10 +193,60 @@ def budget(tier):
     return {"examples": 12000 if tier == "quick" else 20000, "shards": 1 if tier == "quick" else 16}
 
 
+def directed_cases(tier):
+    """Concurrent callers of the Python conversion function (threads of one interpreter), each converting its own indices
+    whose calendar fields all differ: every result must still be exact."""
+    tuples = [[139440783000, 100, 1], [2 ** 62 // 977, 4294967291, 977], [1700000000 * 30000 // 1001 + 12345, 30000, 1001],
+              [253402300799 * 7, 7, 1], [86399 * 200 // 3 + 1, 200, 3], [3600 * 1000000 * 13 + 999999, 1000000, 1],
+              [946684800 * 48000 + 47999, 48000, 1], [1, 3, 2 ** 20]]
+    out = [{"threads": 6, "tuples": tuples, "iters": 150000 if tier == "quick" else 600000}]
+    if tier != "quick":
+        out.append({"threads": 12, "tuples": tuples[::-1], "iters": 300000})
+    return out
+
+
+def _run_threads(case, res):
+    import threading
+
+    import digital_rf
+
+    exp = []
+    for k, n, d in case["tuples"]:
+        es, rem = divmod(k * d, n)
+        eps = rem * PS // n
+        exp.append(((EPOCH + datetime.timedelta(seconds=es)).replace(microsecond=eps // 10 ** 6), eps))
+    bad = []
+    start = threading.Barrier(case["threads"])
+
+    def work(t):
+        tl = case["tuples"]
+        start.wait()
+        for i in range(case["iters"]):
+            j = (i + t) % len(tl)
+            got = digital_rf.get_unix_time(*tl[j])
+            if got != exp[j]:
+                bad.append("thread %d call %d: k=%d n=%d d=%d got (%s,%d) expected (%s,%d)" % ((t, i) + tuple(tl[j]) + (got[0], got[1]) + exp[j]))
+                return
+
+    ths = [threading.Thread(target=work, args=(t,)) for t in range(case["threads"])]
+    for t in ths:
+        t.start()
+    for t in ths:
+        t.join()
+    res.evaluations = case["threads"] * case["iters"]
+    res.nontrivial = True
+    res.cls("concurrent-callers")
+    if bad:
+        res.fail("python-get_unix_time-concurrent", bad[0])
+
+
 def run_case(case):
     res = Result()
     if "fuzz_hex" in case:
         _replay_fuzz(case, res)
+        return res
+    if "threads" in case:
+        _run_threads(case, res)
         return res
     k, n, d = case["k"], case["n"], case["d"]
     check_tuple(k, n, d, case["s"], case["ps"], res)
@@ -211,7 +263,7 @@ def run_case(case):
 
 
 def shrink_candidates(case):
-    if "fuzz_hex" in case:
+    if "fuzz_hex" in case or "threads" in case:
         return
     for key in ("k", "s", "ps", "n", "d"):
         v = case[key]
